@@ -28,6 +28,27 @@ reg('C12', 'exploration',
     'model in vf/props/c12.py. Leading // (UNC / POSIX implementation-defined) is outside the law.',
     'DESIGN.md §2 C12')
 
+reg('C01', 'exploration',
+    'recorded argv/environ of really spawned processes (recording stubs under GNU make) compared '
+    'with the literals the generated script specified; differential vs. option-free baseline steps',
+    'Generated build.bfg scripts place hostile strings in 25 argument contexts; real bfg9000 '
+    'configure + real GNU make + /bin/sh run them and C recording stubs log the exact argv/environ '
+    'that execve delivered. Failing slots are re-run isolated and single characters / pairs are '
+    'probed to name the mechanism. Quick: every printable ASCII char + Unicode sample + curated '
+    'metasyntax + pairs/random sample; thorough: 5 shapes per char, all ordered pairs of 33 loaded '
+    'chars, 1.5k random strings per context.',
+    'Trusted: stubs/vstub.c logging; GNU make 4.3 and /bin/sh (dash) on this machine are the '
+    'reference tools. Says nothing about strings or contexts the generator does not produce.',
+    'DESIGN.md §2 C01')
+reg('C02', 'exploration',
+    'recorded argv/environ of processes spawned when the generated build.ninja is evaluated and '
+    'executed by the reference Ninja evaluator (vf/ref/refninja.py) via /bin/sh -c',
+    'Same workload and oracle as C01 with --backend ninja; the manifest is parsed, evaluated '
+    '(rule/build/file scoping, $in/$out escaping, ${cmd} indirection) and executed by refninja.',
+    'Trusted: refninja (written from the Ninja manual, self-tested in setup, cross-checked against '
+    'GNU make by C06); no real ninja binary exists in this sandbox.',
+    'DESIGN.md §2 C02')
+
 NOT_APPLICABLE = {}
 
 ALL = ['C%02d' % i for i in range(1, 21)]
